@@ -16,6 +16,9 @@ checks = {
  "C09": ("exploration", "small-scope exhaustive enumeration of tail-recursive function shapes: differential against a reference evaluator without tail calls + stack high-water marks over growing depths",
          "every composition of 9 tail contexts to nesting depth 2 (thorough 3; scope-opening contexts to 4/5), the recursive call also in 9 non-tail positions, x 12 body kinds; value/effects/closure observations equal the reference evaluator for depths 0..10, and the VM stack high-water marks are identical for depths 10/60/300 (thorough 10/100/1000/100000)",
          "trusts R1 as the un-optimised semantics; high-water marks sampled in a pre-call hook via the verif accessor", "§3 C09"),
+ "C03": ("exploration", "small-scope exhaustive enumeration of scope skeletons over a two-name pool, differential against a reference evaluator with textbook lexical scopes",
+         "all chains of 27 scope contexts to length 3 (thorough 4) over 6 leaves reading/writing x and y, every binding a distinct integer, evaluated on a fresh real interpreter and on R1; the returned integers identify the binding seen",
+         "trusts R1's environment model as the definition of lexical scoping; integer bindings only; bounded nesting", "§3 C03"),
 }
 all_ids = ["C%02d" % i for i in range(1, 21)]
 pending = {i: "check not built yet in this tree (see DESIGN.md §7 build order); will be claimed when its machinery lands" for i in all_ids if i not in checks}
